@@ -49,6 +49,8 @@ type Case struct {
 	Feats string   `json:"feats,omitempty"` // op cases: the principal's features
 	Hist  []Step   `json:"hist,omitempty"`  // hist cases
 	Big   *BigSpec `json:"big,omitempty"`   // op cases: the document is rendered from this spec
+	JB    *JBytes  `json:"jb,omitempty"`    // jbytes cases (phase J, jsonbytes.go)
+	Burst *Burst   `json:"burst,omitempty"` // burst cases (phase P, burst.go)
 }
 
 type failure struct {
@@ -987,6 +989,19 @@ func (h *harness) runCase(cs Case, verbose bool) *failure {
 			}
 		}
 		return r.fail
+	case "jbytes":
+		rep, ok := h.ask(jmodelLine(*cs.JB))
+		return h.jcheckOne(*cs.JB, rep, ok, verbose)
+	case "srcfacts":
+		return h.phaseS(verbose)
+	case "burst":
+		fl := Flags{}
+		if cs.Flags != nil {
+			fl = *cs.Flags
+		}
+		f := h.checkBurst(*cs.Burst, fl, verbose)
+		h.run.Case(fmt.Sprintf("burst:%s:%v:%d:%d", fl, cs.Burst.Kind, cs.Burst.N, cs.Burst.Size), true)
+		return f
 	case "late-clone":
 		f := h.checkLateClone(cs, verbose)
 		key, _ := json.Marshal(cs.Hist)
@@ -1122,6 +1137,10 @@ func (h *harness) report(cs Case, f *failure) {
 func main() {
 	run := hx.Init("C17")
 	h := &harness{run: run}
+	if os.Getenv("C17_SRCFACTS_WRITE") != "" {
+		h.phaseS(false) // writes the pipeline-shape table of $VERIF_REPO and nothing else
+		return
+	}
 	if run.ModelPath != "" {
 		m, err := hx.StartModel(run.ModelPath)
 		if err != nil {
@@ -1240,6 +1259,32 @@ func main() {
 	}
 	run.Note("phase A0 done at %.1fs", run.Elapsed().Seconds())
 
+	// S: the shape of the pipelines in the current source against the committed table (srcfacts.go).
+	// The obligation rows are recorded now; a changed shape is *reported* at the end of the run and
+	// only when no differential phase produced a concrete failing input (that input is the better
+	// replay: a shape change alone is "no failing input found").
+	shapeFailures := h.phaseSAll(false)
+	reportShape := func() {
+		if len(shapeFailures) == 0 {
+			return
+		}
+		if h.reported["property"]+h.reported["crash"] > 0 {
+			run.Note("pipeline shape changed in %d function(s); concrete failing inputs were found, the shape change is not reported separately: %s", len(shapeFailures), shapeFailures[0].what)
+			return
+		}
+		for _, f := range shapeFailures {
+			h.report(Case{Kind: "srcfacts"}, f)
+		}
+	}
+
+	// J: the byte-level JSON model against the real decoders (jsonbytes.go)
+	h.phaseJ()
+	if os.Getenv("C17_ONLY") == "SJ" { // development aid: only the phases above
+		reportShape()
+		run.Finish(h.model)
+		return
+	}
+
 	// H: histories on fresh API instances (before the phases that share long-lived instances: a
 	// history replays by itself, so it is the better witness of a defect that depends on earlier requests)
 	for i, op := range featureOps() {
@@ -1331,6 +1376,9 @@ func main() {
 	}
 
 	run.Note("phase A2/A4 done at %.1fs", run.Elapsed().Seconds())
+
+	// P: bursts of operations on one WebSocket connection, answers read only afterwards (burst.go)
+	h.phaseP()
 	// B: the differential
 	for i, op := range handOps() {
 		op := op
@@ -1378,6 +1426,7 @@ func main() {
 		run.Violate("correspondence", fmt.Sprintf("%d resolver calls ran with a context that did not come from the request (harness cannot attribute them)", n), "", true, Case{Kind: "op", Op: &Op{Query: "{ __typename }"}})
 	}
 
+	reportShape()
 	run.Finish(h.model)
 }
 
